@@ -133,6 +133,39 @@ class Analysis:
         return rp2, band, cand
 
 
+GRID_FORMS = ["int64", "int_list", "raw_int64", "float32", "raw_float64", "int_tuple_list"]
+MESH_FORMS = ["int64", "int_list", "raw_int64", "float32"]
+
+
+def is_f32(fr):
+    import struct
+    x = float(fr)
+    try:
+        return F(struct.unpack("f", struct.pack("f", x))[0]) == fr
+    except OverflowError:
+        return False
+
+
+def as_input(aa, values, form, mask=None):
+    """hand a coordinate list to the API in the requested representation; returns (object, float64 copy)."""
+    flo = np.array([[float(F(a)), float(F(b))] for a, b in values]).reshape(-1, 2)
+    if form in ("int64", "raw_int64"):
+        arr = np.array([[int(F(a)), int(F(b))] for a, b in values], dtype=np.int64).reshape(-1, 2)
+    elif form == "int_list":
+        arr = [[int(F(a)), int(F(b))] for a, b in values]
+    elif form == "int_tuple_list":
+        arr = [(int(F(a)), int(F(b))) for a, b in values]
+    elif form == "float32" and all(is_f32(F(a)) and is_f32(F(b)) for a, b in values):
+        arr = flo.astype(np.float32)
+    else:
+        arr = flo.copy()
+    if form.startswith("raw"):
+        return arr, flo
+    if mask is not None:
+        return aa.Grid2D(values=arr, mask=mask), flo
+    return aa.Grid2DIrregular(values=arr), flo
+
+
 def pts(lst):
     return [(F(a), F(b)) for a, b in lst]
 
@@ -243,11 +276,29 @@ class C18(PropertyCheck):
             origin = gen.origin_pair(rng) if rng.random() < 0.7 else (F(0), F(0))
             dist = rng.choice(["identity", "scale", "affine", "radial", "jitter", "affine", "radial",
                                "collapse", "line"])
+            # input representation (round-3 hardening): ~1/3 of the cases hand the coordinates over
+            # as integer-dtype ndarrays / Python int lists / float32 / bare ndarrays
+            gform = GRID_FORMS[i % len(GRID_FORMS)] if i % 3 == 1 else "float64"
+            mform = MESH_FORMS[(i // 3) % len(MESH_FORMS)] if i % 3 != 0 else "float64"
             yield self._case(rng, rows, sub, ps, origin, f"rand_{kind}_{dist}", distortion=dist,
                              int_sub=(mode == "uniform" and rng.random() < 0.5),
-                             via_mesh=(i % 5 == 0))
+                             via_mesh=(i % 5 == 0), grid_form=gform, mesh_form=mform)
+        # 3. degenerate frames: 1xN, Nx1, 1x1, 2x2, all unmasked / one pixel
+        shapes = [(1, 1), (1, 4), (5, 1), (2, 2), (2, 3), (3, 3)]
+        for k, (h, w) in enumerate(shapes if quick else shapes * 4):
+            for variant in ("all", "one"):
+                rows = gen.full(h, w, val=(variant != "all"))
+                if variant == "one":
+                    rows[rng.randrange(h)][rng.randrange(w)] = False
+                npx = len(unmasked_pixels(rows))
+                s_ = rng.choice([1, 2, 3])
+                yield self._case(rng, rows, [s_] * npx, (F(1), F(1, 2)), (F(0), F(0)), f"degenerate_{variant}",
+                                 distortion=rng.choice(["scale", "affine", "jitter"]), int_sub=(k % 2 == 0),
+                                 grid_form=GRID_FORMS[k % len(GRID_FORMS)],
+                                 mesh_form=MESH_FORMS[k % len(MESH_FORMS)])
 
-    def _case(self, rng, rows, sub, ps, origin, tag, distortion, int_sub=False, via_mesh=False):
+    def _case(self, rng, rows, sub, ps, origin, tag, distortion, int_sub=False, via_mesh=False,
+              grid_form="float64", mesh_form="float64"):
         base = scaled_sub_grid(rows, sub, ps, origin)
         n = len(base)
         rd = lambda v: F(round(v * 1024), 1024)
@@ -321,11 +372,24 @@ class C18(PropertyCheck):
             else:
                 for _ in range(rng.randint(0, 6)):
                     mesh.append((gen.dyadic(rng, -12, 12, 3), gen.dyadic(rng, -12, 12, 3)))
+        if not mesh and mesh_form != "float64":
+            mesh = [(gen.dyadic(rng, -12, 12, 3), gen.dyadic(rng, -12, 12, 3)) for _ in range(rng.randint(1, 5))]
+            mesh.append((F(40), F(-3)))
+        if "int" in grid_form:
+            grid = [(F(round(a)), F(round(b))) for a, b in grid]
+        elif "float32" in grid_form and not all(is_f32(a) and is_f32(b) for a, b in grid):
+            grid_form = "float64"
+        if "int" in mesh_form:
+            mesh = [(F(round(a)), F(round(b))) for a, b in mesh]
+        if grid_form.startswith("raw"):
+            via_mesh = False
+        if grid_form != "float64" or mesh_form != "float64":
+            tag = f"{tag}|{grid_form}|{mesh_form}"
         return {
             "tag": tag, "mask": mask_json(rows), "sub": list(sub), "int_sub": bool(int_sub),
             "ps": [q(ps[0]), q(ps[1])], "origin": [q(origin[0]), q(origin[1])],
             "grid": [[q(a), q(b)] for a, b in grid], "mesh": [[q(a), q(b)] for a, b in mesh],
-            "via_mesh": bool(via_mesh),
+            "via_mesh": bool(via_mesh), "grid_form": grid_form, "mesh_form": mesh_form,
         }
 
     # ------------------------------------------------------------------ implementation
@@ -356,21 +420,18 @@ class C18(PropertyCheck):
             obs["empty_border"] = True
             return obs
         obs["sub_border_grid"] = [[q(a), q(b)] for a, b in np.asarray(br.sub_border_grid)]
-        gvals = np.array([[float(F(a)), float(F(b))] for a, b in case["grid"]])
-        if all(s == 1 for s in sub) and case.get("via_mesh"):
-            grid = aa.Grid2D(values=gvals, mask=mask)
-        else:
-            grid = aa.Grid2DIrregular(values=gvals)
-        before = gvals.copy()
+        use_grid2d = all(s == 1 for s in sub) and case.get("via_mesh")
+        grid, before = as_input(aa, case["grid"], case.get("grid_form", "float64"),
+                                mask=mask if use_grid2d else None)
         out = br.relocated_grid_from(grid=grid)
         outa = np.asarray(out.array if hasattr(out, "array") else out, dtype=float).reshape(-1, 2)
         obs["grid"] = [[q(a), q(b)] for a, b in outa]
         obs["moved"] = [bool(not (outa[i, 0] == before[i, 0] and outa[i, 1] == before[i, 1]))
                         for i in range(len(before))]
-        obs["input_untouched"] = bool(np.array_equal(np.asarray(grid.array), before))
+        obs["input_untouched"] = bool(np.array_equal(
+            np.asarray(grid.array if hasattr(grid, "array") else grid, dtype=float).reshape(-1, 2), before))
         if case["mesh"]:
-            mvals = np.array([[float(F(a)), float(F(b))] for a, b in case["mesh"]])
-            mesh = aa.Grid2DIrregular(values=mvals)
+            mesh, _ = as_input(aa, case["mesh"], case.get("mesh_form", "float64"))
             om = br.relocated_mesh_grid_from(grid=grid, mesh_grid=mesh)
             obs["mesh"] = [[q(a), q(b)] for a, b in np.asarray(om.array).reshape(-1, 2)]
             oc = br.relocated_mesh_grid_from(grid=out, mesh_grid=mesh)
